@@ -42,9 +42,10 @@ theorem C11_opts_immutable : table.optsFieldWrites = [] := by decide
 theorem C11_reader_keeps_nothing : table.readerFieldWrites.all (fun w => w == ("bufferedReader", "Close")) = true := by decide
 
 /-- **no package-level variable holds a mutable object**: every object created at package level is made by one of the
-    allowed makers (error values, version descriptors, read-only tables, sync.Pool) — in particular no buffer, reader or
+    allowed makers (error values, version descriptors, sync.Pool, and slice and map literals: tables that nothing outside
+    `init` assigns into, sorts, clears or deletes from: `pkgVarWrites`) — in particular no buffer, reader or
     cache is shared behind the API by all users of the package (seed C11-i: a sentinel disk buffer) -/
-theorem C11_pkg_objects : table.pkgObjects.all (fun o => allowedMakers.contains o.2.2) = true := by decide
+theorem C11_pkg_objects : table.pkgObjects.all (fun o => allowedMaker o.2.2) = true := by decide
 
 /-- every method that assigns a field of the per-file writer runs under writeLock on every call path from outside -/
 theorem C11_fields_locked (field m f : String) (path : List String) (hw : (field, m) ∈ table.writerFieldWrites)
